@@ -299,6 +299,37 @@ def judge_scenario(sc, o):
     return None
 
 
+# one call site per category (and a mixed one) for the twin-module oracle
+TWIN_SRC = '''from inline_snapshot import snapshot
+
+LIMIT = snapshot(9)
+
+
+def test_create():
+    assert 11 == snapshot()
+    for k in (3, 8, 5):
+        assert k <= snapshot()
+
+
+def test_fix():
+    assert 22 == snapshot(20)
+    for k in (1, 9):
+        assert k in snapshot([1, 2])
+
+
+def test_trim():
+    assert 33 in snapshot([33, 39])
+    for k in (3, 8, 5):
+        assert k <= LIMIT
+    s = snapshot({"a": 1, "unused": 2})
+    assert s["a"] == 1
+
+
+def test_update():
+    assert 44 == snapshot(40 + 4)
+'''
+
+
 def run(ctx: Ctx):
     ctx.coverage["rule"] = (
         "single call sites: previous source (none / atom / list / nested dict, leaves canonical or hand-written) x 0-5 comparisons of one operation kind "
@@ -353,6 +384,9 @@ def run(ctx: Ctx):
     # lists / tuples / dict displays / constructor calls nested in each other: a run without fix keeps the value (update is value preserving) vs Model/Nest.v
     from .. import nestassign as na
     na.check_part(ctx, 300 if not ctx.thorough else 4000, "C05", unm_choices=(0, 0, 0, 0.2))
+    # D: the category of a call site is decided per file: the same module under three names in one session ends up as it does alone, for every category
+    from .. import twins
+    twins.check(ctx, "C05", [TWIN_SRC], flag_sets=(("create",), ("fix",), ("trim",), ("update",), ("create", "fix", "trim", "update")))
 
 
 def classify(case, obs):
@@ -363,6 +397,9 @@ def classify(case, obs):
 
 
 def replay(ctx: Ctx, data):
+    if isinstance(data.get("case"), dict) and data["case"].get("kind") == "twins":
+        from .. import twins
+        return twins.replay(data["case"])
     if isinstance(data.get("case"), dict) and data["case"].get("kind") == "nest":
         from .. import nestassign as na
         return na.replay_case(data["case"])
